@@ -455,7 +455,7 @@ func readSettings(db *sql.DB) (cs connState, err error) {
 }
 
 // evaluate runs text (as an exec, like Store.Execute does) on a fresh copy.
-func (s *scratch) evaluate(text string) truth {
+func (s *scratch) evaluate(text string, sh *shape) truth {
 	s.n++
 	p := filepath.Join(s.dir, fmt.Sprintf("gt%d.db", s.n%4))
 	for _, sfx := range []string{"", "-wal", "-shm", "-journal"} {
@@ -479,7 +479,13 @@ func (s *scratch) evaluate(text string) truth {
 	}
 	h0 := sqlref.FileHash(p)
 	var tr truth
-	if _, err := db.Exec(text); err != nil {
+	var args []any
+	if sh != nil {
+		for _, nv := range paramValues(sh.Params) {
+			args = append(args, sql.Named(nv.Name, nv.Value))
+		}
+	}
+	if _, err := db.Exec(text, args...); err != nil {
 		tr.Err = err.Error()
 	}
 	after, err := readSettings(db)
@@ -558,6 +564,7 @@ var entries = []string{"execute", "request", "query-none", "query-weak", "query-
 
 type sendResult struct {
 	Entry    string   `json:"entry"`
+	Shape    *shape   `json:"shape,omitempty"`
 	Accepted bool     `json:"accepted"`
 	Err      string   `json:"err,omitempty"`
 	StmtErr  string   `json:"stmt_err,omitempty"`
@@ -598,12 +605,15 @@ func (h *harness) restart(why string) {
 
 // send runs one text through one entry point and reports what changed. The
 // node is put back into its original state afterwards (recreated if needed).
-func (h *harness) send(entry, text string, t *tspec) (*sendResult, error) {
+func (h *harness) send(entry, text string, t *tspec, sh *shape) (*sendResult, error) {
+	if sh.zero() {
+		sh = nil
+	}
 	if err := h.ensureNode(); err != nil {
 		return nil, err
 	}
 	np := h.np
-	res := &sendResult{Entry: entry}
+	res := &sendResult{Entry: entry, Shape: sh}
 	var r nodeResp
 	// a checkpoint needs frames in the WAL to be visible in the main file
 	if np.state.WAL == 0 {
@@ -614,7 +624,7 @@ func (h *harness) send(entry, text string, t *tspec) (*sendResult, error) {
 		np.state = r.State
 	}
 	before := np.state
-	if err := np.p.Call(nodeReq{Op: "send", Entry: entry, SQL: text}, &r, 60*time.Second); err != nil || r.Fatal != "" {
+	if err := np.p.Call(nodeReq{Op: "send", Entry: entry, SQL: text, Shape: sh}, &r, 60*time.Second); err != nil || r.Fatal != "" {
 		res.Broken = fmt.Sprintf("node did not answer: %v %s", err, r.Fatal)
 		h.restart(res.Broken)
 		return res, nil
@@ -636,18 +646,18 @@ func (h *harness) send(entry, text string, t *tspec) (*sendResult, error) {
 				changedSetting = true
 			}
 		}
-		if changedSetting && !h.restore(t, before, after) {
+		if changedSetting && !h.restore(t, sh, before, after) {
 			h.restart("settings changed by " + fmt.Sprintf("%q", text) + " and could not be put back")
 		}
 	}
 	return res, nil
 }
 
-// restore puts the changed setting back by sending the same form of text with
-// the original value (read-write side through Execute, read-only side through
+// restore puts the changed setting back by sending the same form of text (in
+// the same request shape) with the original value (read-write side through Execute, read-only side through
 // Query level none); it reports whether the node is in its previous state
 // (apart from the main file, which a checkpoint has changed for good).
-func (h *harness) restore(t *tspec, want, got nodeState) bool {
+func (h *harness) restore(t *tspec, sh *shape, want, got nodeState) bool {
 	if t == nil || t.Syntax == "read" {
 		return false
 	}
@@ -665,7 +675,7 @@ func (h *harness) restore(t *tspec, want, got nodeState) bool {
 	try := func(entry, orig string) bool {
 		rt.Raw = orig
 		h.c.Count("restores_attempted", 1)
-		if err := h.np.p.Call(nodeReq{Op: "send", Entry: entry, SQL: rt.text()}, &r, 60*time.Second); err != nil || r.Fatal != "" || r.State.Err != "" {
+		if err := h.np.p.Call(nodeReq{Op: "send", Entry: entry, SQL: rt.text(), Shape: sh}, &r, 60*time.Second); err != nil || r.Fatal != "" || r.State.Err != "" {
 			return false
 		}
 		h.np.state = r.State
@@ -694,13 +704,17 @@ type caseRec struct {
 	Truth truth         `json:"ground_truth"`
 	Guard bool          `json:"guard_matches"`
 	Sends []*sendResult `json:"sends"`
+	// Shape: set for the cases of the request-shape part (the text is then one
+	// that the bare request had refused)
+	Shape *shape `json:"shape,omitempty"`
 }
 
 func run(c *vf.Ctx) {
-	c.Rule("SQL texts rendered from specs: pragma {journal_mode, wal_autocheckpoint, wal_checkpoint, synchronous, query_only, 5 harmless ones} x schema {none, main, MAIN, temp, \"main\", `main`, [main], 'main'} (tight or spaced dot) x name quoting x syntax {= value, (value), no value} with 6/4 spacings x up to 9 value spellings x keyword/name case x separator whitespace x prefix {none, blanks, newlines, -- comment, /* */ comment, ';'} x inline comment x position {alone, 2nd, 3rd statement, after an INSERT, after another PRAGMA} x suffix x EXPLAIN. First every single variation of every protected pragma (systematic), then seeded random combinations. Each text goes through Store.Execute, Store.Request and Store.Query (levels rotate none/weak/strong/linearizable). non-trivial = ground truth says the text changes a protected setting or checkpoints when executed on the scratch database; distinct by text")
+	c.Rule("SQL texts rendered from specs: pragma {journal_mode, wal_autocheckpoint, wal_checkpoint, synchronous, query_only, 5 harmless ones} x schema {none, main, MAIN, temp, \"main\", `main`, [main], 'main'} (tight or spaced dot) x name quoting x syntax {= value, (value), no value} with 6/4 spacings x up to 9 value spellings x keyword/name case x separator whitespace x prefix {none, blanks, newlines, -- comment, /* */ comment, ';'} x inline comment x position {alone, 2nd, 3rd statement, after an INSERT, after another PRAGMA} x suffix x EXPLAIN. First every single variation of every protected pragma (systematic), then seeded random combinations. Each text goes through Store.Execute, Store.Request and Store.Query (levels rotate none/weak/strong/linearizable) as the bare request {statements:[{sql:text}]}. Request shapes: every text that the node has just refused as a bare request through all three entry points is sent again (a) in one single-element shape, rotating over bound parameters attached to the placeholder-free statement {int, string, null, real, bool, blob, three values, named, positional+named}, a benign statement before it in the same request {SELECT, INSERT, parameterized INSERT, parameterized SELECT} or after it, Statement.forceQuery, Statement.sql_explain, Request.transaction, rollbackOnError, dbTimeout, qualifyColumns, timings, freshness, and (b) in a seeded random combination of 1-4 of these; before that the plain form of every protected pragma goes through every single-element shape x Execute/Request/Query. non-trivial = ground truth says the text (with the same bound values) changes a protected setting or checkpoints when executed on the scratch database; distinct by text (x entry x shape for shaped requests)")
 	c.Assume("ground truth = the text executed with Exec on a scratch SQLite database opened with rqlite's read-write DSN options (WAL, synchronous off), wal_autocheckpoint=0 and two committed transactions pending in the WAL; 'checkpoint' = sha256 of the main database file changed")
 	c.Assume("node settings are read back through the store itself: read-write connection via Execute with ForceQuery (PRAGMA x), read-only pool via Query level none; main file = <dir>/db.sqlite hashed by the child; automatic snapshots are disabled (thresholds 2^40, interval 24h) so only a request can checkpoint")
 	c.Assume("a request counts as rejected only when the Store call returns an error; the guard rejecting a harmless text is not a violation")
+	c.Assume("request shapes are only tried on texts whose bare request was observed to be refused without effect, so a change after a shaped request is due to the shape; ForceStall (fault-injection flag that blocks the query) is not used")
 
 	base := vf.TempDir("c15")
 	defer os.RemoveAll(base)
@@ -725,6 +739,10 @@ func run(c *vf.Ctx) {
 		specs = append(specs, genText(c.Rand(uint64(i))))
 	}
 
+	shapes := newShapeRun(c, h, sc)
+	shapes.systematic()
+	c.Extra("systematic_single_shape_cases", shapes.n)
+
 	// which (pragma, class, connection) singles violate: filled by the systematic part
 	singleBad := map[string]bool{}
 	singleKey := func(p, class, conn string) string { return p + "|" + class + "|" + conn }
@@ -732,7 +750,7 @@ func run(c *vf.Ctx) {
 	samples := 0
 	for i, t := range specs {
 		text := t.text()
-		rec := &caseRec{N: i, Spec: t, Text: text, Truth: sc.evaluate(text), Guard: rdb.IsBreakingPragma(text)}
+		rec := &caseRec{N: i, Spec: t, Text: text, Truth: sc.evaluate(text, nil), Guard: rdb.IsBreakingPragma(text)}
 		dangerous := len(rec.Truth.Changed) > 0
 		if dangerous {
 			c.Nontrivial(text)
@@ -746,14 +764,18 @@ func run(c *vf.Ctx) {
 		c.Eval(1)
 		held := true
 		inconclusive := false
+		allRefused := true
 		for _, e := range ents {
-			sr, err := h.send(e, text, t)
+			sr, err := h.send(e, text, t, nil)
 			if err != nil {
 				c.Logf("case %d: %v", i, err)
 				inconclusive = true
 				break
 			}
 			rec.Sends = append(rec.Sends, sr)
+			if !refused(sr) {
+				allRefused = false
+			}
 			c.Count("requests_sent", 1)
 			if sr.Accepted {
 				c.Count("requests_accepted:"+e, 1)
@@ -795,7 +817,7 @@ func run(c *vf.Ctx) {
 					// not yet known: try each class alone on the node
 					for _, cl := range classes {
 						st := t.single(cl)
-						sr2, err := h.send(e, st.text(), st)
+						sr2, err := h.send(e, st.text(), st, nil)
 						c.Count("attribution_requests", 1)
 						if err == nil && sr2 != nil && len(sr2.Changed) > 0 {
 							singleBad[singleKey(t.Pragma, cl, conn)] = true
@@ -828,6 +850,10 @@ func run(c *vf.Ctx) {
 		if held {
 			c.Held(1)
 		}
+		if allRefused {
+			// the node refuses this text as a bare request: try it in other request shapes
+			shapes.after(i, t, text, ents)
+		}
 		if samples < 6 && (i%97 == 3) {
 			samples++
 			c.Sample(rec)
@@ -844,7 +870,15 @@ func run(c *vf.Ctx) {
 	}
 	sort.Strings(bad)
 	c.Extra("violating_single_classes", bad)
-	c.Require(int64(n/2), n/10)
+	badShapes := []string{}
+	for k := range shapes.singleBad {
+		badShapes = append(badShapes, k)
+	}
+	sort.Strings(badShapes)
+	c.Extra("violating_single_shape_elements", badShapes)
+	c.Count("shaped_cases", int64(shapes.n))
+	// a normal quick run has ~1000 shaped cases on top of the n texts
+	c.Require(int64(n/2+400), n/10)
 }
 
 // journalFresh: SQLite refuses to leave WAL mode while another connection has
@@ -885,8 +919,27 @@ func journalFresh(c *vf.Ctx, h *harness, sc *scratch) {
 			mk(func(t *tspec) { t.Prefix = "block-comment"; t.Val = v })
 		}
 	}
+	// The plain text (first case, refused as a bare request) again in request
+	// shapes; judged only when that first case was seen to be refused.
+	shaped := map[int]*shape{}
+	for _, sh := range []*shape{{Params: "int"}, {Params: "named"}, {Lead: "select"}, {Lead: "param-insert"}, {Tx: true}, {ForceQuery: true}} {
+		shaped[len(specs)] = sh
+		mk(func(t *tspec) {})
+	}
+	if !c.Quick() {
+		for _, sh := range singleShapes() {
+			shaped[len(specs)] = sh
+			mk(func(t *tspec) {})
+		}
+	}
+	bareRefused := false
 	for i, t := range specs {
 		text := t.text()
+		sh := shaped[i]
+		if sh != nil && !bareRefused {
+			c.Count("fresh_node_shape_cases_skipped_no_control", 1)
+			continue
+		}
 		h.nodes++
 		dir := filepath.Join(h.base, fmt.Sprintf("node%d", h.nodes))
 		os.MkdirAll(dir, 0755)
@@ -896,18 +949,18 @@ func journalFresh(c *vf.Ctx, h *harness, sc *scratch) {
 			continue
 		}
 		entry := "execute"
-		rec := &caseRec{N: i, Spec: t, Text: text, Truth: sc.evaluate(text), Guard: rdb.IsBreakingPragma(text)}
+		rec := &caseRec{N: i, Spec: t, Text: text, Truth: sc.evaluate(text, sh), Guard: rdb.IsBreakingPragma(text), Shape: sh}
 		var r1, r2 nodeResp
-		err1 := p.Call(nodeReq{Op: "send", Entry: entry, SQL: text, NoState: true}, &r1, 90*time.Second)
+		err1 := p.Call(nodeReq{Op: "send", Entry: entry, SQL: text, NoState: true, Shape: sh}, &r1, 90*time.Second)
 		err2 := p.Call(nodeReq{Op: "state"}, &r2, 60*time.Second)
 		p.Kill()
 		os.RemoveAll(dir)
 		c.Eval(1)
 		c.Count("fresh_node_journal_mode_cases", 1)
 		if len(rec.Truth.Changed) > 0 {
-			c.Nontrivial("fresh:" + text)
+			c.Nontrivial("fresh:" + text + "\x00" + sh.key())
 		}
-		sr := &sendResult{Entry: entry, Accepted: r1.Accepted, Err: r1.Err, StmtErr: r1.StmtErr}
+		sr := &sendResult{Entry: entry, Shape: sh, Accepted: r1.Accepted, Err: r1.Err, StmtErr: r1.StmtErr}
 		rec.Sends = []*sendResult{sr}
 		if err1 != nil || r1.Fatal != "" {
 			c.Inconclusive("node unavailable")
@@ -918,12 +971,17 @@ func journalFresh(c *vf.Ctx, h *harness, sc *scratch) {
 		}
 		if err2 != nil || r2.Fatal != "" || r2.State.Err != "" {
 			sr.Broken = fmt.Sprintf("settings unreadable afterwards: %v %s %s", err2, r2.Fatal, r2.State.Err)
-			c.Violation("node-broken:journal_mode:"+strings.Join(t.classes(), "+"),
-				fmt.Sprintf("after %s of %q on a fresh node the node could not be used: %s", entry, text, sr.Broken), rec)
+			c.Violation("node-broken:journal_mode:"+strings.Join(append(t.classes(), sh.classes()...), "+"),
+				fmt.Sprintf("after %s of %q (request shape %s) on a fresh node the node could not be used: %s", entry, text, sh.key(), sr.Broken), rec)
 			continue
 		}
 		if !strings.EqualFold(r2.State.RW[0], "wal") {
 			sr.Changed = []string{"rw.journal_mode wal->" + r2.State.RW[0]}
+			if sh != nil {
+				c.Violation("shape-bypass:journal_mode:"+strings.Join(sh.classes(), "+"),
+					fmt.Sprintf("%q, refused as a bare request, in request shape %s via %s on a node whose read-only pool is idle was accepted=%v and left the read-write connection in journal mode %s (read-only pool afterwards: %s)", text, sh.key(), entry, r1.Accepted, r2.State.RW[0], orOK(r2.State.ROErr)), rec)
+				continue
+			}
 			class := "plain@" + entry
 			for _, cl := range t.classes() {
 				// a bare schema prefix is covered by the guard; it is never the cause here
@@ -934,6 +992,9 @@ func journalFresh(c *vf.Ctx, h *harness, sc *scratch) {
 			c.Violation("bypass:journal_mode:"+class,
 				fmt.Sprintf("%q via %s on a node whose read-only pool is idle was accepted=%v and left the read-write connection in journal mode %s (read-only pool afterwards: %s)", text, entry, r1.Accepted, r2.State.RW[0], orOK(r2.State.ROErr)), rec)
 			continue
+		}
+		if i == 0 && !r1.Accepted {
+			bareRefused = true
 		}
 		c.Held(1)
 	}
@@ -960,22 +1021,23 @@ func replay(c *vf.Ctx, h *harness, sc *scratch) {
 		return
 	}
 	text := f.Case.Text
-	tr := sc.evaluate(text)
+	sh := f.Case.Shape
+	tr := sc.evaluate(text, sh)
 	c.Logf("text %q ground truth %+v guard=%v", text, tr, rdb.IsBreakingPragma(text))
 	c.Eval(1)
 	c.Nontrivial(text)
 	c.Nontrivial(text + " ")
 	held := true
 	for _, e := range entries {
-		sr, err := h.send(e, text, f.Case.Spec)
+		sr, err := h.send(e, text, f.Case.Spec, sh)
 		if err != nil {
 			c.Inconclusive("node unavailable")
 			return
 		}
-		c.Logf("  %s: accepted=%v err=%q stmt_err=%q changed=%v", e, sr.Accepted, sr.Err, sr.StmtErr, sr.Changed)
+		c.Logf("  %s shape=%s: accepted=%v err=%q stmt_err=%q changed=%v", e, sh.key(), sr.Accepted, sr.Err, sr.StmtErr, sr.Changed)
 		if len(sr.Changed) > 0 {
 			held = false
-			c.Violation("replay:"+e, fmt.Sprintf("%q via %s changed %v", text, e, sr.Changed), f.Case)
+			c.Violation("replay:"+e, fmt.Sprintf("%q in request shape %s via %s changed %v", text, sh.key(), e, sr.Changed), f.Case)
 		}
 	}
 	if held {
